@@ -399,3 +399,18 @@ fn highest_bit_set(x: u32) -> u32 {
     assert!(x > 0);
     u32::BITS - x.leading_zeros()
 }
+
+/// Read-only views for the verification harness (no logic).
+#[cfg(feature = "verif_hooks")]
+impl HuffmanTable {
+    /// decode table as (symbol, num_bits)
+    pub fn verif_decode(&self) -> Vec<(u8, u8)> {
+        self.decode.iter().map(|e| (e.symbol, e.num_bits)).collect()
+    }
+    pub fn verif_weights(&self) -> &[u8] {
+        &self.weights
+    }
+    pub fn verif_bits(&self) -> &[u8] {
+        &self.bits
+    }
+}
